@@ -2,14 +2,14 @@
 # re-run every seeded change (seeded/<ID>/patch.diff) against the current checks in scratch worktrees; one line per seed
 cd "$(dirname "$0")/.."
 for d in seeded/C*; do
-  id=$(basename $d)
-  WT=/tmp/wt-all-$id
+  name=$(basename $d); id=${name%%-*}
+  WT=/tmp/wt-all-$name
   git -C /repo worktree add --detach $WT HEAD >/dev/null 2>&1 || { echo "$id worktree-failed"; continue; }
-  if ! git -C $WT apply "$(pwd)/$d/patch.diff" 2>/dev/null; then echo "$id patch-does-not-apply (repo fix commits may have touched the same lines)"; git -C /repo worktree remove --force $WT; continue; fi
+  if ! git -C $WT apply "$(pwd)/$d/patch.diff" 2>/dev/null; then echo "$name patch-does-not-apply (repo fix commits may have touched the same lines)"; git -C /repo worktree remove --force $WT; continue; fi
   (cd /tmp && PYTHONPATH=/repo/lib timeout 600 /venv/bin/python "$OLDPWD/$d/demo.py" >/dev/null 2>&1); d0=$?
   (cd /tmp && PYTHONPATH=$WT/lib timeout 600 /venv/bin/python "$OLDPWD/$d/demo.py" >/dev/null 2>&1); d1=$?
   out=$(VERIF_REPO=$WT timeout 2400 ./vcheck $id 2>&1); e=$?
   n=$(echo "$out" | grep -c "^VIOLATION")
-  echo "$id demo_unmodified=$d0 demo_modified=$d1 check_exit=$e violations=$n $(echo "$out" | grep '^VIOLATION' | head -1 | cut -c1-140)"
+  echo "$name demo_unmodified=$d0 demo_modified=$d1 check_exit=$e violations=$n $(echo "$out" | grep '^VIOLATION' | head -1 | cut -c1-140)"
   git -C /repo worktree remove --force $WT
 done
